@@ -13,6 +13,7 @@ import (
 	"github.com/google/uuid"
 	"github.com/onosproject/onos-config/pkg/utils/v2/tree"
 	"io"
+	"strings"
 	"sync"
 	"time"
 
@@ -547,6 +548,13 @@ func (s *configurationStore) getApplied(ctx context.Context, id configapi.Config
 
 func (s *configurationStore) store(ctx context.Context, store _map.Map[string, *configapi.PathValue], values map[string]*configapi.PathValue) error {
 	prunedValues := tree.PrunePathMap(values, true)
+	// A value written by a later transaction than the one that deleted its ancestor is not covered by that
+	// delete: keep it
+	for path, pv := range values {
+		if _, ok := prunedValues[path]; !ok && !pv.Deleted && newerThanDeletedAncestors(values, pv) {
+			prunedValues[path] = pv
+		}
+	}
 	transaction := store.Transaction(ctx)
 	for _, pv := range values {
 		entry, err := store.Get(ctx, pv.Path)
@@ -572,6 +580,18 @@ func (s *configurationStore) store(ctx context.Context, store _map.Map[string, *
 		return err
 	}
 	return nil
+}
+
+// newerThanDeletedAncestors reports whether every deleted ancestor of the given value was deleted by an earlier
+// transaction than the one that wrote the value
+func newerThanDeletedAncestors(values map[string]*configapi.PathValue, pv *configapi.PathValue) bool {
+	for _, other := range values {
+		if other.Deleted && other.Index >= pv.Index && len(pv.Path) > len(other.Path) && strings.HasPrefix(pv.Path, other.Path) &&
+			(pv.Path[len(other.Path)] == '/' || pv.Path[len(other.Path)] == '[') {
+			return false
+		}
+	}
+	return true
 }
 
 // removeAbsent removes the entries of the given path value map that are not present in values
